@@ -137,7 +137,9 @@ func chooseC11Config(x *engine.X, label string) *c11Config {
 	return c
 }
 
-var c11Sources = []string{"file", "file(2rg)->multi", "buffer", "merge(disjoint)", "merge(overlap)", "merge(dedupe)", "convert(identity)", "convert(drop+add)", "foreign(filter)", "file(longlist)"}
+var c11Sources = []string{"file", "file(2rg)->multi", "buffer", "merge(disjoint)", "merge(overlap)", "merge(dedupe)", "convert(identity)", "convert(drop+add)", "foreign(filter)", "file(longlist)",
+	// a wrapper that EMBEDS the concrete *parquet.FileRowGroup (and so inherits every method of it, exported or not) and overrides Rows()
+	"foreign(embeds *FileRowGroup)"}
 
 // filteredRowGroup is a foreign RowGroup implementation: it exposes the file's
 // column chunks but its Rows() only yields rows with even ID.
@@ -149,6 +151,20 @@ type filteredRowGroup struct {
 type filteredRows struct {
 	parquet.Rows
 	keep func(parquet.Row) bool
+}
+
+// embeddingRowGroup embeds the concrete file row group type.
+type embeddingRowGroup struct {
+	*parquet.FileRowGroup
+	keep func(parquet.Row) bool
+}
+
+func (g *embeddingRowGroup) Rows() parquet.Rows {
+	return &filteredRows{Rows: g.FileRowGroup.Rows(), keep: g.keep}
+}
+
+func (g *embeddingRowGroup) NumRows() int64 {
+	return (&filteredRowGroup{RowGroup: g.FileRowGroup, keep: g.keep}).NumRows()
 }
 
 func (g *filteredRowGroup) Rows() parquet.Rows {
@@ -347,6 +363,24 @@ func c11Run(x *engine.X) {
 			rg = parquet.ConvertRowGroup(yf.RowGroups()[0], conv)
 			for _, r := range rows {
 				r.F = 0
+				expect = append(expect, r)
+			}
+		}
+	case "foreign(embeds *FileRowGroup)":
+		rows := limit(c11Rows(0, 12, false))
+		f, err := c11WriteFile(rows, srcOpts)
+		if err != nil {
+			fail(err)
+			return
+		}
+		frg, ok := f.RowGroups()[0].(*parquet.FileRowGroup)
+		if !ok {
+			fail(fmt.Errorf("row group of a file is a %T", f.RowGroups()[0]))
+			return
+		}
+		rg = &embeddingRowGroup{FileRowGroup: frg, keep: func(r parquet.Row) bool { return r[0].Int64()%2 == 0 }}
+		for _, r := range rows {
+			if r.ID%2 == 0 {
 				expect = append(expect, r)
 			}
 		}
